@@ -37,9 +37,13 @@ CLAIM = {
              "loading, every record P d A x B with x != 0 is stored under B->A with rate x and under A->B with 1/x, "
              "source PriceDB (C09_pdb_loaded, C09_pdb_entry, C09_pdb_print_load), zero-amount records change nothing in "
              "the builder (C09_pdb_zero), and after process a pair holds exactly the file's records if it has any, else "
-             "the ledger's (C09_pdb_priority). Not proved: a converse characterisation of ALL accepted texts (the round "
-             "trip covers the canonical print and its CR/LF layouts; other accepted spellings - several blanks or tabs "
-             "between fields, hyphenated or unpadded dates, `5USD` - are covered by the correspondence check only)."),
+             "the ledger's (C09_pdb_priority). Converse direction: every record the parser returns, for EVERY text, is well "
+             "formed once the grouping tag of a number below 1000 is normalised (parsePriceDb_image), so every accepted file "
+             "has a canonical print that reads back as exactly its records and loads to the same builder "
+             "(parsePriceDb_canonical, loadPriceDb_canonical). Not proved: a grammar-level description of the set of "
+             "accepted texts beyond that (which spellings of blanks, dates and numbers are accepted is fixed by the model "
+             "and validated by the correspondence stream only); rust_decimal's rounding of 1/x is not modelled (exact "
+             "rationals, see note)."),
     "note": ("rust_decimal is modelled as exact rationals (generated rates are products of powers of 2 and 5 so that every "
              "product and reciprocal is exact; an extra stream with factors 3/7 is compared with a 1e-18 relative tolerance "
              "and tagged). The price-db TEXT goes to the model, which parses and loads it itself; the generator's structured "
@@ -92,7 +96,13 @@ THEOREMS = [
     "Okane.Price.C09_pdb_zero",
     "Okane.Price.C09_pdb_priority",
     "Okane.Price.C09_pdb_print_load",
+    "Okane.PriceDbFile.parsePriceDb_image",
+    "Okane.PriceDbFile.parsePriceDb_canonical",
+    "Okane.PriceDbFile.loadPriceDb_canonical",
 ]
+
+# the converse-direction theorems live in their own module (they use C05's / C07's image lemmas about dates and numbers)
+EXTRA_IMPORTS = ["Okane.Lemmas.PriceDbFileImage"]
 
 # ------------------------------------------------------------------------------------------------
 # S-expressions (reader for the harness output)
@@ -723,7 +733,7 @@ def run(chk):
         "price-db file: core's parser is not public, so the real code is observed through report::process (ok / ReportError::PriceDB with the ParseError's error_span and line_start read from its Debug text, and the conversions it then answers); reading the file (std::fs::read_to_string: missing file, invalid UTF-8) is outside the model",
         "the (commodity_with, date) cache of PriceRepository is modelled as a memo table and proved transparent (C09_cache_transparent)",
     ]
-    if not standard_prologue(chk, THEOREMS):
+    if not standard_prologue(chk, THEOREMS, imports=EXTRA_IMPORTS):
         return
     n_random = 1200 if chk.tier == "quick" else 30000
     n_inexact = 60 if chk.tier == "quick" else 1500
